@@ -170,7 +170,7 @@ Example C16_nonvacuous_read :
   c_surfs (cellf wit 0) = [0; 1] /\ c_comps (cellf wit 1) = [0].
 Proof.
   split; [exact wit_raw_Raw|]. split; [exact wit_raw_Linked|]. split; [exact wit_read_ok|].
-  repeat split; vm_compute; reflexivity.
+  split; [vm_compute; reflexivity|]. split; vm_compute; reflexivity.
 Qed.
 Print Assumptions C16_nonvacuous_read.
 
